@@ -233,7 +233,45 @@ pub fn bad_rule() -> RuleSpec {
 /// A conditional rule's side condition "slot `s` does not occur in the binding of `v`" is built in one of eight equivalent ways, chosen
 /// per (case, rule): the harness's own closure, or the crate's public condition combinators `slot_free_in`, `not`, `and`, `or`
 /// (a user writes conditional rules with these; all five must behave alike).
+/// pattern variables of a rule text renamed by a scheme that varies with the case (substitutions are hash maps keyed by the variable
+/// name: other lengths and spellings give other iteration orders); the renaming is injective
+pub fn ren_vars(t: &str) -> String {
+    let scheme = (crate::core::case_salt() >> 7) % 3;
+    if scheme == 0 {
+        return t.to_string();
+    }
+    let cs: Vec<char> = t.chars().collect();
+    let mut out = String::new();
+    let mut i = 0;
+    while i < cs.len() {
+        out.push(cs[i]);
+        if cs[i] == '?' {
+            let mut j = i + 1;
+            while j < cs.len() && (cs[j].is_alphanumeric() || cs[j] == '_') {
+                j += 1;
+            }
+            let id: String = cs[i + 1..j].iter().collect();
+            out.push_str(&ren_var(&id));
+            i = j;
+            continue;
+        }
+        i += 1;
+    }
+    out
+}
+pub fn ren_var(id: &str) -> String {
+    match (crate::core::case_salt() >> 7) % 3 {
+        1 => format!("{id}_{}", id.len() + 3),
+        2 => format!("w{id}{id}"),
+        _ => id.to_string(),
+    }
+}
+
 pub fn mk_rewrite<N: Analysis<LArith> + 'static>(r: &RuleSpec) -> Rewrite<LArith, N> {
+    let (lhs_s, rhs_s) = (ren_vars(r.lhs), ren_vars(r.rhs));
+    let vs: Option<(&'static str, String)> = r.not_free.map(|(s, v)| (s, ren_var(v)));
+    struct R2<'a> { name: &'static str, lhs: &'a str, rhs: &'a str, not_free: Option<(&'static str, &'a str)> }
+    let r = R2 { name: r.name, lhs: &lhs_s, rhs: &rhs_s, not_free: vs.as_ref().map(|(s, v)| (*s, v.as_str())) };
     match r.not_free {
         // an unconditional rule with a plain right side is, in a third of the (case, rule) pairs, built the way a user builds a custom
         // rule: RewriteT with ematch_all as searcher and union_instantiations per match as applier
